@@ -22,8 +22,10 @@ echo "demo without patch: rc=$D2 (expect 0)"
 rm -rf $C/MUTATION
 # our check against /repo
 exec 9>/tmp/verif_repo.lock; flock -x 9
+KEEP=$(mktemp -d); cp /verif/evidence/$ID.* $KEEP/ 2>/dev/null   # committed evidence must come from the clean tree
 git -C /repo apply $OUT/patch.diff && ( cd /verif && VERIF_LOCK_HELD=1 ./check $ID > /tmp/wt/confirm_chk.log 2>&1 ); CK=$?
 git -C /repo checkout -- .
+cp $KEEP/* /verif/evidence/ 2>/dev/null; rm -rf $KEEP
 flock -u 9
 echo "check $ID with patch on /repo: rc=$CK"; grep -E "^(VIOLATION|UNDECIDED|FAILED-OBLIGATION|PASS)" /tmp/wt/confirm_chk.log | cut -c1-220 | head -6
 python3 - <<PY
